@@ -150,7 +150,9 @@ EOS_ASSUMPTION = ("callee contract (proved in C10): Thermodynamics.{p,dp,ddp,e,d
 
 def make_hydro(it=None):
     th = SymObj("Thermodynamics", "thermodynamics", label="thermodynamics")
-    th.attrs["Tnucl"] = real("Tnucl")
+    # the thermodynamics object is shared and its Tnucl can be re-set by its owner at any time: its CURRENT value is a symbol of its own.
+    # Hydrodynamics copies it at construction (hy.Tnucl); a method that reads the shared attribute instead of the copy depends on history.
+    th.attrs["Tnucl"] = real("thermodynamics.Tnucl.now")
     for ph in PHASES:
         fe = SymObj("FreeEnergy", "freeEnergy", label=f"freeEnergy{ph}")
         fe.attrs["__phase__"] = ph
